@@ -127,12 +127,17 @@ func c01Exec(ctx *Ctx, cwd string, wall time.Duration, cpuSec int, args []string
 	return r
 }
 
-// The CPU limit: ten times the linear envelope of the input size. A run between
-// one and ten envelopes that ends is a "time" finding, a run that reaches the
-// limit a "hang"; the wide gap keeps polynomial slowdowns from flipping between
-// the two.
+// The CPU limit: ten times the linear envelope of the input size (five times
+// for inputs of 16 kB and more, where an envelope is already 2-12 s). A run
+// between one envelope and the limit that ends is a "time" finding, a run
+// that reaches the limit a "hang"; the wide gap keeps polynomial slowdowns
+// from flipping between the two.
 func c01CPUSeconds(size int) int {
-	return int(10*c01CPULimit(size)/time.Second) + 1
+	m := 10
+	if size >= 16384 {
+		m = 5
+	}
+	return int(time.Duration(m)*c01CPULimit(size)/time.Second) + 1
 }
 
 func c01CaseDir(ctx *Ctx, c *c01Case, prefix string) (root, cwd string) {
